@@ -11,12 +11,13 @@ import random
 
 PROPERTY = "C03"
 RULE = (
-    "case = (model family, operation sequence over the family's alphabet of public state-changing operations [predict under 6 settings "
-    "tuples, train()/eval(), optimiser step in training mode, set_train_data (inputs+targets / targets only), load_state_dict (perturbed / "
-    "same), get_fantasy_model, prior-mode call, backward through non-detached prediction]); all sequences of length <= 2 exhaustively, "
-    "length 3 sampled (quick) / exhaustive for the exact families (thorough), lengths 4-8 sampled; prediction compared with a fresh model after "
-    "every step; distinct = (family, sequence); non-trivial iff the sequence has a prediction before a state-changing operation and "
-    "the prediction really changed (> 1e-6) somewhere along the history"
+    "case = (model family, operation sequence over the family's alphabet of public state-changing operations [predict under 6 settings tuples, "
+    'train()/eval(), optimiser step in training mode, set_train_data (inputs+targets / targets only), load_state_dict (perturbed / same), '
+    'get_fantasy_model, prior-mode call, backward through non-detached prediction]); all sequences of length <= 2 exhaustively, length 3: all '
+    'predict -> state change -> predict sandwiches plus a sample (quick) / exhaustive for the exact families (thorough), lengths 4-8 sampled; '
+    "families incl. an iterative-regime exact GP (no Cholesky, rank-8 Lanczos roots); every predict operation's OWN output is compared with a "
+    'fresh twin, prediction compared with a fresh model after every step; distinct = (family, sequence); non-trivial iff the sequence has a '
+    'prediction before a state-changing operation and the prediction really changed (> 1e-6) somewhere along the history'
 )
 REQUIRED = ["step_matches_fresh", "final_matches_fresh", "op_output_matches_fresh", "monitor:cache_add", "monitor:clear_cache"]
 ASSUMPTIONS = [
